@@ -77,10 +77,24 @@ def regen_fmt_tables(status):
     _one('fmt_tables', 'TallyVerif/Gen/FmtTables.lean', 'TallyVerif.Gen.FmtTables', tables, status)
 
 
+def regen_fs_steps(status):
+    from .translate import fs_steps
+
+    def produce():
+        a = common.read(os.path.join(common.SRC, 'cli.py'))
+        b = common.read(os.path.join(common.SRC, 'commands', 'init.py'))
+        text, meta = fs_steps.translate(a, b)
+        meta['input_sha'] = common.sha(text)
+        return text, meta
+
+    _one('fs_steps', 'TallyVerif/Gen/FsSteps.lean', 'TallyVerif.Gen.FsSteps', produce, status)
+
+
 def regen_all():
     status = {}
     regen_classification(status)
     regen_specificity(status)
     regen_expr_tables(status)
     regen_fmt_tables(status)
+    regen_fs_steps(status)
     return status
